@@ -65,6 +65,9 @@ func runScenarios() []monFailure {
 	for _, f := range []func() []monFailure{scenUpperCaseDecision, scenNestedOverflowPurchase, scenMixedModulesFee, scenDenomChange, scenVestingPurchaser, scenExtraDenomFee, scenGovPurchaser, scenMaxHeight, scenGovFundedExport, scenFeeBoundary, scenForgedForLockedOwner, scenMaxLoweredBelowLimit, scenExplicitFeePayer, scenForgedWithGranter, scenInconsistentGenesis, scenHugeOrder} {
 		out = append(out, f()...)
 	}
+	for _, f := range moreScenarios() {
+		out = append(out, f()...)
+	}
 	return out
 }
 
